@@ -267,15 +267,15 @@ def run(tier: str, col: common.Collector) -> None:
         if len(stream) <= 4:
             pairs = list(itertools.product(sf, sf))
             if tier == "quick":
-                pairs = r.sample(pairs, min(len(pairs), 6000))
+                pairs = r.sample(pairs, min(len(pairs), 12000))
         else:
-            k = 1500 if tier == "quick" else 60000
+            k = 4000 if tier == "quick" else 60000
             pairs = [(r.choice(sf), r.choice(sf)) for _ in range(k)]
         n = max(1, min(common.NCPU, len(pairs) // 500))
         for i in range(n):
             dtasks.append((name, stream, ids, pairs[i::n]))
     common.pmap(part_double, dtasks, col)
-    nrand = 300 if tier == "quick" else 20000
+    nrand = 900 if tier == "quick" else 20000
     common.pmap(part_random, [(w, nrand) for w in range(common.NCPU)], col)
     col.notes["base_streams"] = [n for n, _ in bases]
     if not col.counters.get("streams_with_seq_error_callback"):
